@@ -25,7 +25,10 @@ class UserData:
         self.componentID = componentID
         self.creatorID = creatorID
         self.dataLength = sectionLen - 8
-        self.data = self.stream.get_mem(self.dataLength)
+        # A section may consist of its header alone.
+        self.data = b''
+        if self.dataLength != 0:
+            self.data = self.stream.get_mem(self.dataLength)
 
     def toJSON(self, config: Config) -> OrderedDict:
 
